@@ -145,6 +145,12 @@ where
             &mut self.rng,
         )?;
         self.state = self.hamiltonian.init_state(math, position)?;
+        if !self.state.point().logp().is_finite() {
+            return Err(NutsError::BadInitGrad(
+                anyhow::anyhow!("Invalid initial point: log-density is not finite").into(),
+            )
+            .into());
+        }
         Ok(())
     }
 
